@@ -313,15 +313,3 @@ Definition strict_cond (m : model) (conds : list cid) (store : list tuple) : lis
 
 Definition has_lax_cond (m : model) (conds : list cid) (store : list tuple) : bool :=
   existsb (fun t => valid_for_read m conds t && negb (strictly_conditioned m t)) store.
-
-(* ---- sqlite_user_rows ---- *)
-(* sqlite.ReadStartingWithUser with a relation-less user filter `type:id` also returns the rows
-   whose user is a userset type:id#rel (C13 finding F6, root cause of C05 finding F7); the
-   bottom-up strategies (weight2, recursive) read the user side with that filter and then see
-   object#relation@type:id#rel as object#relation@type:id. *)
-Definition sqlite_user_rows (store : list tuple) : list tuple :=
-  store ++
-  flat_map (fun t => match t_sub t with
-                     | SSet o' _ => [{| t_obj := t_obj t; t_rel := t_rel t; t_sub := SObj o'; t_cond := t_cond t; t_ceval := t_ceval t |}]
-                     | _ => []
-                     end) store.
